@@ -70,9 +70,22 @@ def load_schema_text(xml):
         return None, (type(e).__name__, str(e)[:120])
 
 
+_LSP = [0]
+
+
 def load_schema_path(path):
     import ZConfig
+    _LSP[0] += 1
     try:
+        if _LSP[0] % 3 == 0:
+            # the same file as an open binary file whose name is bytes
+            old = os.getcwd()
+            os.chdir("/")
+            try:
+                with open(os.fsencode(path), "rb") as f:
+                    return ZConfig.loadSchemaFile(f), None
+            finally:
+                os.chdir(old)
         return ZConfig.loadSchema(path), None
     except ZConfig.SchemaError as e:
         return None, ("SchemaError", str(e)[:120])
